@@ -38,10 +38,13 @@ type HFile struct {
 type HLine struct {
 	P       int      `json:"p"`
 	Ops     []HOp    `json:"ops"`
-	Res     []string `json:"res"`     // result per op
+	Res     []string `json:"res"` // result per op
 	Exit    string   `json:"exit"`
 	Aliases []string `json:"aliases"` // per alias ever created: how a send to it ends after the termination (unknown | terminated | ok ...)
 	Mid     []string `json:"mid"`     // per alias ever created: how a send to it ended right before the termination
+	MidName string   `json:"midname"` // send to the name right before the termination ("" = none held)
+	MidEv   []string `json:"midev"`   // per event held right before the termination: registering it from another process ("taken" expected)
+	Rival   []string `json:"rival"`   // results of a rival's attempts to register what the process holds
 	Name    string   `json:"name"`    // send to the name after the termination ("" = never registered)
 	Events  []string `json:"events"`  // per event ever registered: result of registering it again from another process afterwards
 	Rels    int      `json:"rels"`    // relations in the target manager that still mention the terminated process as requester
@@ -96,7 +99,10 @@ func RunHistories(nodeName string, f *HFile, out *bufio.Writer) error {
 		line := HLine{P: h.ID, Ops: h.Ops, Exit: h.Exit}
 		var aliases []gen.Alias
 		name := gen.Atom("")
+		hadName := false
+		_ = hadName
 		events := map[int]gen.Atom{}
+		held := map[int]bool{}
 		var evOrder []int
 		for _, op := range h.Ops {
 			op := op
@@ -123,6 +129,10 @@ func RunHistories(nodeName string, f *HFile, out *bufio.Writer) error {
 					}
 				case "unname":
 					res = s.UnregisterName()
+					if res == nil {
+						name = ""
+						hadName = true
+					}
 				case "event":
 					ev := gen.Atom(fmt.Sprintf("he_%d_%d", h.ID, op.K))
 					_, res = s.RegisterEvent(ev, gen.EventOptions{})
@@ -131,13 +141,19 @@ func RunHistories(nodeName string, f *HFile, out *bufio.Writer) error {
 							evOrder = append(evOrder, op.K)
 						}
 						events[op.K] = ev
+						held[op.K] = true
 					}
 				case "unevent":
 					if ev, ok := events[op.K]; ok {
 						res = s.UnregisterEvent(ev)
+						if res == nil {
+							held[op.K] = false
+						}
 					} else {
 						res = errors.New("skip")
 					}
+				case "rival":
+					// handled outside the process (below)
 				case "link":
 					res = s.LinkPID(peers[op.K%len(peers)])
 				case "unlink":
@@ -152,12 +168,53 @@ func RunHistories(nodeName string, f *HFile, out *bufio.Writer) error {
 			if derr != nil {
 				res = derr
 			}
+			if op.Op == "rival" {
+				// another process tries to take the name and the events the process holds, is refused, and terminates
+				rv, _ := n.Spawn(gated.Factory(w, "R", false, nil), gen.ProcessOptions{})
+				gated.Do(n, rv, func(s *gated.Scripted) error {
+					if name != "" {
+						line.Rival = append(line.Rival, hres(s.RegisterName(name)))
+					}
+					for _, k := range evOrder {
+						if held[k] {
+							_, e := s.RegisterEvent(events[k], gen.EventOptions{})
+							line.Rival = append(line.Rival, hres(e))
+						}
+					}
+					return nil
+				})
+				if op.K%2 == 0 {
+					n.Kill(rv)
+				} else {
+					n.Send(rv, gated.Cmd{Fn: func(*gated.Scripted) error { return gen.TerminateReasonNormal }})
+				}
+				for i := 0; i < 2000; i++ {
+					if _, err := n.ProcessInfo(rv); err != nil {
+						break
+					}
+					time.Sleep(100 * time.Microsecond)
+				}
+			}
 			line.Res = append(line.Res, hres(res))
 		}
 		// peers that link / monitor the process (it is the target of these)
 		gated.Do(n, peers[2], func(s *gated.Scripted) error { s.MonitorPID(pid); return nil })
 		for _, a := range aliases {
 			line.Mid = append(line.Mid, hres(n.Send(a, "probe")))
+		}
+		if name != "" {
+			line.MidName = hres(n.Send(gen.ProcessID{Name: name, Node: n.Name()}, "probe"))
+		}
+		for _, k := range evOrder {
+			if held[k] {
+				ev := events[k]
+				var e error
+				gated.Do(n, peers[0], func(s *gated.Scripted) error { _, e = s.RegisterEvent(ev, gen.EventOptions{}); return nil })
+				line.MidEv = append(line.MidEv, hres(e))
+				if e == nil {
+					gated.Do(n, peers[0], func(s *gated.Scripted) error { s.UnregisterEvent(ev); return nil })
+				}
+			}
 		}
 		switch h.Exit {
 		case "kill":
@@ -207,6 +264,12 @@ func RunHistories(nodeName string, f *HFile, out *bufio.Writer) error {
 		}
 		if line.Events == nil {
 			line.Events = []string{}
+		}
+		if line.MidEv == nil {
+			line.MidEv = []string{}
+		}
+		if line.Rival == nil {
+			line.Rival = []string{}
 		}
 		b, _ := json.Marshal(&line)
 		out.Write(b)
